@@ -5,10 +5,10 @@
    Each channel is modelled by Stream/WsConn.v's [conn] (a websocket Conn; a TCP connection or a yamux
    stream is the special case where the receiver may also split "messages" arbitrarily, which the read
    oracle already allows).  A copier is one goroutine of the copy pairs
-     TCPProxy.forward   /repo/server/proxy/tcpproxy.go:99-119
-     Forwarder.forward  /repo/client/forwarder.go:105-137
-     Server.forward     /repo/agent/tcpproxy/server.go:141-160
-     forwardConn        /repo/forward/forwarder.go:89-116
+     TCPProxy.forward   /repo/server/proxy/tcpproxy.go:95-115
+     Forwarder.forward  /repo/client/forwarder.go:82-130
+     Server.forward     /repo/agent/tcpproxy/server.go:132-152
+     forwardConn        /repo/forward/forwarder.go:66-112
    i.e. `defer dst.Close(); io.Copy(dst, src)`: repeat { nr, er := src.Read(buf); if nr > 0 { dst.Write(buf[:nr]) };
    if er != nil { break } } and then dst.Close().
 
